@@ -13,8 +13,25 @@ pub fn verif_seed() -> u64 {
     std::env::var("VERIF_SEED").ok().and_then(|s| s.parse::<u64>().ok()).unwrap_or(DEFAULT_SEED)
 }
 
+/// The verification directory: $VERIF_DIR, else the directory this binary was built in
+/// (<verif>/sim/target/release/simctl), else /verif.
 pub fn verif_dir() -> String {
-    std::env::var("VERIF_DIR").unwrap_or_else(|_| "/verif".to_string())
+    if let Ok(d) = std::env::var("VERIF_DIR") {
+        return d;
+    }
+    if let Ok(exe) = std::env::current_exe() {
+        if let Some(d) = exe.ancestors().nth(4) {
+            if d.join("MANIFEST.json").exists() {
+                return d.to_string_lossy().into_owned();
+            }
+        }
+    }
+    "/verif".to_string()
+}
+
+/// where evidence/ and replays/ are written (default: the verif dir itself)
+pub fn out_dir() -> String {
+    std::env::var("VERIF_OUT").unwrap_or_else(|_| verif_dir())
 }
 
 pub fn workers() -> usize {
@@ -57,7 +74,7 @@ fn known_match<'a>(known: &'a [Value], property: &str, v: &Value) -> Option<&'a 
 
 /// Writes evidence, replay files; prints the protocol lines; returns the process exit code.
 pub fn finish(report: Report) -> i32 {
-    let dir = verif_dir();
+    let dir = out_dir();
     let _ = std::fs::create_dir_all(format!("{dir}/evidence"));
     let _ = std::fs::create_dir_all(format!("{dir}/replays"));
     let known = load_known();
